@@ -12,6 +12,8 @@ package http
 //@   modifies req_method, req_url, req_body, n_do, do_method, do_url, do_body, do_err, do_status, do_final_method, do_resp_body, rd_buf
 //@   // one GET for this log's checkpoint path; 404 becomes exactly os.ErrNotExist, 200 the body bytes, anything else an error
 //@   ensures[C16.c1] n_do <= old(n_do) + 1 && (sent ==> do_method == "GET")
+//@   // ... the path naming the asked ID as ONE escaped segment (an ID like "./x" or "a/../x" must not resolve to log x's path)
+//@   ensures[C16.c1,C16.route] sent ==> do_url == urlStr(urlSrc(w.url) ++ "/witness/v0/logs/" ++ pathEsc(logID) ++ "/checkpoint")
 //@   ensures[C16.c2] sent && do_err == nil && do_status == 404 ==> err == os.ErrNotExist && out == nil
 //@   ensures[C16.c3] sent && do_err == nil && do_status == 200 && err == nil ==> str(out) == do_resp_body
 //@   ensures[C16.c4] sent && do_err == nil && do_status != 200 && do_status != 404 ==> err != nil && err != os.ErrNotExist && out == nil
